@@ -54,7 +54,7 @@ struct SetCase {
 
 pub fn run(tier: Tier) -> i32 {
     let rep = Report::new("C10", tier, "model_checking");
-    rep.set_rule("SCOPE: voice sets {V0; V0+P1; V0+P1+P2; V0+P1+P2+P3; V0+V0; generated pairs/triples with different trees incl. coarse-then-fine and fine-then-coarse orders} x weight vectors on the quarter-step simplex lattice incl. vertices and components in [-1/4,3/2] x which of the 1+2*streams quantities (duration, parameter[i], gv[i]) deviate from equal weights (<= 2 at a time, the second with the reversed vector) x labels (cover set Lambda + corpus windows); oracle: Models::duration / model_stream(i).stream / .gv equal sum_v w_v x that voice's own Model::get_parameter (rel 1e-12 incl. voicing weight); weights (1,0,..) reproduce the single-voice parameters and waveform bit-exactly; identical voices reproduce the single voice (parameters 1e-12, waveform 1e-6 of peak); distinct = (voice set, weight vector, deviating quantities); non-trivial = more than one voice");
+    rep.set_rule("SCOPE: voice sets {V0; V0+P1; V0+P1+P2; V0+P1+P2+P3; V0+V0; generated pairs/triples with different trees incl. coarse-then-fine and fine-then-coarse orders} x weight vectors on the quarter-step simplex lattice incl. vertices and components in [-1/4,3/2] x which of the 1+2*streams quantities (duration, parameter[i], gv[i]) deviate from equal weights (<= 2 at a time, the second with the reversed vector; plus whole groups moved together: duration+parameters, all GV, all parameters, all but duration, all) x labels (cover set Lambda + corpus windows); oracle: Models::duration / model_stream(i).stream / .gv equal sum_v w_v x that voice's own Model::get_parameter (rel 1e-12 incl. voicing weight); weights (1,0,..) reproduce the single-voice parameters and waveform bit-exactly; identical voices reproduce the single voice (parameters 1e-12, waveform 1e-6 of peak); distinct = (voice set, weight vector, deviating quantities); non-trivial = more than one voice");
     rep.assume("weights on the quarter-step lattice; each voice's own tree selection is taken from Model::get_parameter (validated against the independent reader by C04)");
     let corpus = labels::corpus();
     let lam = labels::lambda(&corpus);
@@ -106,29 +106,39 @@ pub fn run(tier: Tier) -> i32 {
         }
         let eq = vec![1.0 / nv as f64; nv];
         // which quantities deviate: none, each single, each pair (second gets the reversed vector)
-        let mut devsets: Vec<Vec<usize>> = vec![vec![]];
+        // (quantities, all of them get the same vector?)
+        let mut devsets: Vec<(Vec<usize>, bool)> = vec![(vec![], false)];
         for a in 0..nq {
-            devsets.push(vec![a]);
+            devsets.push((vec![a], false));
         }
         if maxdev >= 2 {
             for a in 0..nq {
                 for b in a + 1..nq {
-                    devsets.push(vec![a, b]);
+                    devsets.push((vec![a, b], false));
                 }
             }
         }
+        // whole groups moved together, the rest left at equal weights: duration + every parameter vector (GV untouched),
+        // every GV vector, every parameter vector, everything but the duration, everything
+        let params: Vec<usize> = (1..=ns).collect();
+        let gvs: Vec<usize> = (ns + 1..nq).collect();
+        devsets.push(([vec![0], params.clone()].concat(), true));
+        devsets.push((gvs.clone(), true));
+        devsets.push((params.clone(), true));
+        devsets.push(([params.clone(), gvs.clone()].concat(), true));
+        devsets.push(((0..nq).collect(), true));
         let jobs: Vec<(usize, usize)> = (0..ws.len()).flat_map(|w| (0..devsets.len()).map(move |d| (w, d))).collect();
         rep.par_for(jobs.len(), 4, "C10 part 1", |j| {
             let (wi, di) = jobs[j];
             let w = &ws[wi];
             let wrev: Vec<f64> = w.iter().rev().cloned().collect();
-            let dev = &devsets[di];
+            let (dev, same) = &devsets[di];
             if dev.is_empty() && wi > 0 {
                 return;
             }
             let mut q: Vec<Option<&Vec<f64>>> = vec![None; nq];
             for (k, qi) in dev.iter().enumerate() {
-                q[*qi] = Some(if k == 0 { w } else { &wrev });
+                q[*qi] = Some(if k == 0 || *same { w } else { &wrev });
             }
             let mut e = base.clone();
             rep.eval(1);
